@@ -43,6 +43,16 @@ func (c *Ctx) registrations() []registration {
 				}
 				lit, ok := ast.Unparen(call.Args[len(call.Args)-1]).(*ast.FuncLit)
 				if !ok {
+					// a named function of the package: m.Register(IntTypeId, IntTypeId, lessIntInt)
+					if id, isID := ast.Unparen(call.Args[len(call.Args)-1]).(*ast.Ident); isID {
+						if fn, isFn := info.Uses[id].(*types.Func); isFn && fn.Pkg() == pkg.Types {
+							if nd := findFuncDecl(pkg, fn); nd != nil && nd.Body != nil {
+								lit, ok = namedCellLit(nd), true
+							}
+						}
+					}
+				}
+				if !ok {
 					// a function kept in a local variable: numLess := func(...) {...}; m.Register(ta, tb, numLess)
 					if id, isID := ast.Unparen(call.Args[len(call.Args)-1]).(*ast.Ident); isID {
 						if v, isVar := info.ObjectOf(id).(*types.Var); isVar {
@@ -847,7 +857,33 @@ func ruleR144(c *Ctx) {
 					}
 					if sel.Sel.Name == "equal" || sel.Sel.Name == "less" || sel.Sel.Name == "ef" {
 						nWired++
-						if !callsRet(resolve(t.Rhs[i])) {
+						// a method value of the operator object: deepEqual.ef = deepEqual.itemsEqual - the method has to call
+						// Calc of its receiver
+						viaMethod := false
+						if ms, ok := ast.Unparen(t.Rhs[i]).(*ast.SelectorExpr); ok {
+							if msel, ok := info.Selections[ms]; ok && msel.Kind() == types.MethodVal {
+								if rid, ok := ast.Unparen(ms.X).(*ast.Ident); ok && info.ObjectOf(rid) == ret {
+									if mfn, ok := msel.Obj().(*types.Func); ok {
+										if md := findFuncDecl(vp, mfn); md != nil && md.Body != nil && md.Recv != nil && len(md.Recv.List[0].Names) == 1 {
+											robj := info.Defs[md.Recv.List[0].Names[0]]
+											viaMethod = containsNodeDeep(md.Body, func(y ast.Node) bool {
+												cc, ok := y.(*ast.CallExpr)
+												if !ok {
+													return false
+												}
+												s2, ok := ast.Unparen(cc.Fun).(*ast.SelectorExpr)
+												if !ok || s2.Sel.Name != "Calc" {
+													return false
+												}
+												id, ok := ast.Unparen(s2.X).(*ast.Ident)
+												return ok && info.ObjectOf(id) == robj
+											})
+										}
+									}
+								}
+							}
+						}
+						if !viaMethod && !callsRet(resolve(t.Rhs[i])) {
 							bad = fmt.Sprintf("%s is set to a function that does not call Calc of the operator object %s", nodeStr(c.Fset, l), ret.Name())
 						}
 					}
@@ -1070,4 +1106,17 @@ func ruleR148(c *Ctx) {
 	if n < 2 {
 		c.Undecided("value#searches-by-equality", token.NoPos, "only %d loops that compare candidates with the equality function found", n)
 	}
+}
+
+// namedCellLit presents a declared function as a function literal (sharing type and body), so that the cell
+// analyses, which look at literals, apply to named cells as well. One literal per declaration.
+var namedCellLits = map[*ast.FuncDecl]*ast.FuncLit{}
+
+func namedCellLit(fd *ast.FuncDecl) *ast.FuncLit {
+	if l, ok := namedCellLits[fd]; ok {
+		return l
+	}
+	l := &ast.FuncLit{Type: fd.Type, Body: fd.Body}
+	namedCellLits[fd] = l
+	return l
 }
